@@ -16,15 +16,15 @@ def sz (n : Nat) (steps : List (Step α)) (l : Nat) : Nat :=
 
 /-- Label `l` is consumed by one of the steps before step `i`. -/
 def UsedBefore (steps : List (Step α)) (i l : Nat) : Prop :=
-  ∃ j s, j < i ∧ steps[j]? = some s ∧ (s.c1 = l ∨ s.c2 = l)
+  ∃ (j : Nat) (s : Step α), j < i ∧ steps[j]? = some s ∧ (s.c1 = l ∨ s.c2 = l)
 
 /-- `n ≥ 2` observations: exactly `n-1` steps; step `i` merges two distinct, not yet merged
 clusters with labels `< n+i`, smaller label first, size = sum of the two sizes. -/
 structure WellFormed (n : Nat) (steps : List (Step α)) : Prop where
   len : steps.length = n - 1
-  ordered : ∀ i s, steps[i]? = some s → s.c1 < s.c2 ∧ s.c2 < n + i
-  fresh : ∀ i s, steps[i]? = some s → ¬ UsedBefore steps i s.c1 ∧ ¬ UsedBefore steps i s.c2
-  size : ∀ i s, steps[i]? = some s → s.size = sz n steps s.c1 + sz n steps s.c2
+  ordered : ∀ (i : Nat) (s : Step α), steps[i]? = some s → s.c1 < s.c2 ∧ s.c2 < n + i
+  fresh : ∀ (i : Nat) (s : Step α), steps[i]? = some s → ¬ UsedBefore steps i s.c1 ∧ ¬ UsedBefore steps i s.c2
+  size : ∀ (i : Nat) (s : Step α), steps[i]? = some s → s.size = sz n steps s.c1 + sz n steps s.c2
 
 /-- The observations beneath a label, by recursion on the step index (`fuel` = number of steps
 that may still be unfolded; `steps.length` suffices for a well-formed list). -/
